@@ -210,6 +210,16 @@ def check_idempotent_guard(ctx, R, classes, note_classes=()):
             for s in fn.node.body:
                 if isinstance(s, ast.Expr) and isinstance(s.value, ast.Constant):
                     continue
+                # early-return form:  if <not in the state to act>: return   ... effects ...
+                if isinstance(s, ast.If) and len(s.body) == 1 and isinstance(s.body[0], ast.Return) and s.body[0].value is None \
+                        and not s.orelse and ({self_field(x) for x in ast.walk(s.test) if self_field(x)} & STATE_FLAGS):
+                    t = src(s.test).replace(' ', '')
+                    if 'stopped' in t:
+                        neg = t.startswith('not')
+                        # start(): `if not self.stopped: return`; stop(): `if self.stopped: return`
+                        if (mname == 'start' and not neg) or (mname == 'stop' and neg):
+                            bad = (s, 'the early return %s has the wrong polarity for %s()' % (src(s.test), mname))
+                    break
                 if isinstance(s, (ast.Import, ast.ImportFrom, ast.Pass)):
                     continue
                 if isinstance(s, ast.If):
